@@ -43,8 +43,10 @@ def encName (s : String) : Name := nm s
 
 def pad2 (i : Nat) : String := if i < 10 then s!"0{i}" else toString i
 
+/-- rendered through the model's `renderName` (the function `C18_att2idx_att2name` is about), so that every attribute
+    name compared with the implementation validates it -/
 def anameStr (a : AName) : String :=
-  nameStr a.base ++ String.join (a.idx.map (fun i => "_" ++ pad2 i))
+  String.ofList ((renderName (nameBytes a.base) a.idx).map Char.ofNat)
 
 def fhex (n : Nat) : String := if F64.isNaN n then "nan" else
   let ds := (Nat.toDigits 16 n)
